@@ -120,5 +120,15 @@ CHECKS["C05"] = dict(
     note=_TB + "; PSD without a certificate is only decided when z3 finishes (n <= 3)",
     technique="symbolic execution of the real annotation-inference rules / routines on symbolic payloads; z3 decides the matrix identities and the "
               "quadratic-form inequality; counterexamples replayed on float NumPy")
-for _p in ["C09","C10","C16","C17","C18","C19"]:
+CHECKS["C09"] = dict(
+    text="exp / log / sqrt / isqrt / pow / apply_unary executed on inputs given by their eigen-decomposition (Eigh: V diag(w) V^T with a symbolic rotation or "
+         "rational basis; Eig: P diag(w) P^-1) with symbolic spectra, exp / log uninterpreted (with the sound rewrite exp(sum) = prod exp), half-integer powers as "
+         "sqrt generators; every structural rule (Diagonal, ScalarMul, Identity, BlockDiag, Transpose, Adjoint incl. complex, exp(KronSum), pow(Kronecker)); "
+         "integer-power shortcuts vs repeated products, pow(A,-1) vs inverse, sqrt(A) sqrt(A) v == A v; Lanczos / Arnoldi algorithm objects on "
+         "Krylov-parametrised operands (also with max_iters beyond the Krylov dimension): the result applied to symbolic vectors equals the primary matrix "
+         "function for all parameter values",
+    note=_TB + "; LAPACK eigh / eig are served from the harness' registry (inverse parametrisation); Krylov dimension <= 2 for the Lanczos / Arnoldi paths",
+    technique="concolic symbolic execution of the Python source on exact rational-function terms with uninterpreted exp / log, sqrt generators and registered "
+              "eigen-decompositions; z3 decides residuals and mask / sort path flips; float replay of every path seed")
+for _p in ["C10","C16","C17","C18","C19"]:
     NA[_p] = "check under construction in this session (not yet registered); see DESIGN.md section 5 for the plan"
